@@ -33,6 +33,8 @@ pub enum SK {
     Ready,
     /// QoS 1 with a payload larger than the peer's maximum packet size: must fail locally
     Q1Big,
+    /// QoS 0 publish with a 24-byte payload (fills a small write buffer: write back-pressure engages)
+    Q0Fill,
     /// QoS 1 publish through the non-blocking API (publish_ack_cb + send_at_least_once_no_block)
     Q1NoBlock,
     /// over-size QoS 1 publish with a caller-chosen packet id (fails locally; the id must stay usable)
@@ -119,6 +121,13 @@ async fn run_sender_v5(sink: ntex_mqtt::v5::MqttSink, kind: SK, j: usize, app: A
     match kind {
         SK::Q0 => {
             let r = sink.publish(bs("t")).send_at_most_once(by(&[tag(j)]));
+            push(match r {
+                Ok(()) => "ok".into(),
+                Err(e) => format!("err:{e:?}"),
+            });
+        }
+        SK::Q0Fill => {
+            let r = sink.publish(bs("t")).send_at_most_once(by(&[tag(j); 24]));
             push(match r {
                 Ok(()) => "ok".into(),
                 Err(e) => format!("err:{e:?}"),
@@ -304,6 +313,13 @@ async fn run_sender_v3(sink: ntex_mqtt::v3::MqttSink, kind: SK, j: usize, app: A
     match kind {
         SK::Q0 => {
             let r = sink.publish(bs("t")).send_at_most_once(by(&[tag(j)]));
+            push(match r {
+                Ok(()) => "ok".into(),
+                Err(e) => format!("err:{e:?}"),
+            });
+        }
+        SK::Q0Fill => {
+            let r = sink.publish(bs("t")).send_at_most_once(by(&[tag(j); 24]));
             push(match r {
                 Ok(()) => "ok".into(),
                 Err(e) => format!("err:{e:?}"),
